@@ -2,6 +2,7 @@ package hcv
 
 import (
 	"fmt"
+	"go/token"
 	"go/types"
 	"sort"
 	"strings"
@@ -44,6 +45,7 @@ type Anchors struct {
 	Unresolved    []string
 	Log           []string
 	roleOf        map[*ssa.Function]string
+	Forwarders    map[*ssa.Function][]*ssa.Function // body function -> role functions that only forward to it
 	internalPath  string
 	driverPath    string
 	fscachePath   string
@@ -64,6 +66,106 @@ func (a *Anchors) note(role string, fn *ssa.Function) {
 
 // F returns the function resolved for role (nil when unresolved; the unresolved list fails the check).
 func (a *Anchors) F(role string) *ssa.Function { return a.Fn[role] }
+
+// IsRoleFunc: fn is the function holding the role's body or one of the forwarders in front of it.
+func (a *Anchors) IsRoleFunc(fn *ssa.Function, role string) bool {
+	return fn != nil && a.roleOf[fn] == role
+}
+
+// StaticTree: the repo functions reachable from root through static calls.
+func (p *Prog) StaticTree(root *ssa.Function) map[*ssa.Function]bool {
+	seen := map[*ssa.Function]bool{}
+	var rec func(f *ssa.Function)
+	rec = func(f *ssa.Function) {
+		if f == nil || seen[f] || !p.IsRepoFunc(f) {
+			return
+		}
+		seen[f] = true
+		instrsOf(f, func(in ssa.Instruction) {
+			if c := callOf(in); c != nil {
+				if sc := c.StaticCallee(); sc != nil {
+					rec(sc)
+				}
+			}
+		})
+	}
+	rec(root)
+	return seen
+}
+
+// forwardTarget: when fn does nothing but call one repo function with its own parameters (or state loaded from
+// its receiver) and return that call's results unchanged, the callee; otherwise nil.
+func (p *Prog) forwardTarget(fn *ssa.Function) *ssa.Function {
+	if len(fn.Blocks) != 1 {
+		return nil
+	}
+	var call *ssa.Call
+	var ret *ssa.Return
+	for _, in := range fn.Blocks[0].Instrs {
+		switch x := in.(type) {
+		case *ssa.Call:
+			if call != nil {
+				return nil
+			}
+			call = x
+		case *ssa.FieldAddr, *ssa.Extract, *ssa.DebugRef:
+		case *ssa.UnOp:
+			if x.Op != token.MUL {
+				return nil
+			}
+		case *ssa.Return:
+			ret = x
+		default:
+			return nil
+		}
+	}
+	if call == nil || ret == nil {
+		return nil
+	}
+	sc := call.Call.StaticCallee()
+	if sc == nil || !p.IsRepoFunc(sc) || len(sc.Blocks) == 0 || sc.Parent() != nil || sc == fn {
+		return nil
+	}
+	if len(ret.Results) == 1 {
+		if ret.Results[0] != ssa.Value(call) {
+			return nil
+		}
+	} else {
+		for i, r := range ret.Results {
+			ex, ok := r.(*ssa.Extract)
+			if !ok || ex.Tuple != ssa.Value(call) || ex.Index != i {
+				return nil
+			}
+		}
+	}
+	// every parameter of fn (besides the receiver) is handed on
+	passed := map[ssa.Value]bool{}
+	for _, a := range call.Call.Args {
+		switch y := a.(type) {
+		case *ssa.Parameter:
+			passed[y] = true
+		case *ssa.UnOp:
+			fa, ok := y.X.(*ssa.FieldAddr)
+			if !ok {
+				return nil
+			}
+			if _, ok := fa.X.(*ssa.Parameter); !ok {
+				return nil
+			}
+		default:
+			return nil
+		}
+	}
+	for i, prm := range fn.Params {
+		if i == 0 && fn.Signature.Recv() != nil {
+			continue
+		}
+		if !passed[prm] {
+			return nil
+		}
+	}
+	return sc
+}
 
 func sigParams(fn *ssa.Function) []types.Type {
 	var out []types.Type
@@ -129,7 +231,7 @@ func headerCallWithKey(fn *ssa.Function, method, key string) bool {
 
 // ResolveAnchors finds every anchor; unresolved ones are listed in a.Unresolved.
 func ResolveAnchors(p *Prog) *Anchors {
-	a := &Anchors{p: p, Fn: map[string]*ssa.Function{}, FnSet: map[string][]*ssa.Function{}, DirAcc: map[*ssa.Function]DirInfo{}, RawValue: map[*ssa.Function]bool{}, roleOf: map[*ssa.Function]string{}}
+	a := &Anchors{p: p, Fn: map[string]*ssa.Function{}, FnSet: map[string][]*ssa.Function{}, DirAcc: map[*ssa.Function]DirInfo{}, RawValue: map[*ssa.Function]bool{}, roleOf: map[*ssa.Function]string{}, Forwarders: map[*ssa.Function][]*ssa.Function{}}
 	a.internalPath = p.ModPath + "/internal"
 	a.driverPath = p.ModPath + "/store/driver"
 	a.fscachePath = p.ModPath + "/store/fscache"
@@ -195,6 +297,19 @@ func ResolveAnchors(p *Prog) *Anchors {
 				continue
 			}
 			walk(e.Callee.Func, fg && !isGo)
+			// a function value handed to code outside the repository (slices.SortFunc, slices.IndexFunc,
+			// sync.Once.Do, ...) is assumed to be called by it
+			if e.Site != nil && !p.IsRepoFunc(e.Callee.Func) {
+				for _, arg := range e.Site.Common().Args {
+					if _, isSig := arg.Type().Underlying().(*types.Signature); !isSig {
+						continue
+					}
+					fns, _ := p.funcValueRoots(arg, nil)
+					for _, f := range fns {
+						walk(f, fg && !isGo)
+					}
+				}
+			}
 		}
 	}
 	walk(a.Root, true)
@@ -328,10 +443,22 @@ func ResolveAnchors(p *Prog) *Anchors {
 			a.fail("role %s: expected exactly 1 function, found %d %v", role, len(found), names)
 			return nil
 		}
-		a.Fn[role] = found[0]
-		a.roleOf[found[0]] = role
-		a.note(role, found[0])
-		return found[0]
+		// a role function that only forwards to another repo function (method -> function taking the receiver's
+		// state explicitly) is analysed in the function that holds the body; both carry the role
+		target := found[0]
+		for i := 0; i < 3; i++ {
+			t := p.forwardTarget(target)
+			if t == nil {
+				break
+			}
+			a.roleOf[target] = role
+			a.Forwarders[t] = append(a.Forwarders[t], target)
+			target = t
+		}
+		a.Fn[role] = target
+		a.roleOf[target] = role
+		a.note(role, target)
+		return target
 	}
 	inReach := func(fn *ssa.Function) bool { return a.Reach[fn] }
 	inInternal := func(fn *ssa.Function) bool {
@@ -539,25 +666,7 @@ func ResolveAnchors(p *Prog) *Anchors {
 		}
 	}
 	a.FnSet["statusTables"] = statusTables
-	staticTree := func(root *ssa.Function) map[*ssa.Function]bool {
-		seen := map[*ssa.Function]bool{}
-		var rec func(f *ssa.Function)
-		rec = func(f *ssa.Function) {
-			if seen[f] || !p.IsRepoFunc(f) {
-				return
-			}
-			seen[f] = true
-			instrsOf(f, func(in ssa.Instruction) {
-				if c := callOf(in); c != nil {
-					if sc := c.StaticCallee(); sc != nil {
-						rec(sc)
-					}
-				}
-			})
-		}
-		rec(root)
-		return seen
-	}
+	staticTree := p.StaticTree
 	if ff != nil {
 		ft := staticTree(ff)
 		pick("heurStatus", nil, func(fn *ssa.Function) bool {
@@ -733,7 +842,9 @@ func ResolveAnchors(p *Prog) *Anchors {
 	})
 	pick("varyMatchOne", inInternalReach, func(fn *ssa.Function) bool {
 		ps, rs := sigParams(fn), sigResults(fn)
-		return fn.Parent() == nil && len(ps) == 2 && isPtrToNamed(ps[0], a.RefT) && isHTTPHeader(ps[1]) && len(rs) == 1 && isBoolType(rs[0])
+		// (reference, request header) -> bool, possibly preceded by explicitly passed state
+		n := len(ps)
+		return fn.Parent() == nil && n >= 2 && n <= 3 && isPtrToNamed(ps[n-2], a.RefT) && isHTTPHeader(ps[n-1]) && len(rs) == 1 && isBoolType(rs[0])
 	})
 	pick("validationHandler", inInternalReach, func(fn *ssa.Function) bool {
 		ps, rs := sigParams(fn), sigResults(fn)
